@@ -115,6 +115,11 @@ pub fn lex_xml(s: &str) -> Vec<Value> {
                 }
             }
             i = j + 1;
+        } else if (c < ' ' && c != '\t' && c != '\n' && c != '\r') || c == '\u{fffe}' || c == '\u{ffff}' {
+            // not a character of XML 1.0 (production [2] Char)
+            flush(&mut text, &mut out);
+            out.push(json!(["B", "character outside XML"]));
+            i += 1;
         } else {
             text.push(c);
             i += 1;
